@@ -436,4 +436,11 @@ Section Proofs.
     - split; [|discriminate]. split; [discriminate|]. intros [H _]. apply P in H. discriminate.
     - contradiction.
   Qed.
+  Lemma no_panic_lemma k :
+    (forall data sg, verify k data sg <> Panic) /\
+    (forall s, verify_sth k s <> Panic) /\
+    (forall s e, verify_sct k s e = Panic <-> sct_version s = 0 /\ entry_nil e).
+  Proof.
+    split; [intros; apply verify_no_panic | split; [intros; apply verify_sth_no_panic | intros; apply verify_sct_panic_iff]].
+  Qed.
 End Proofs.
